@@ -168,15 +168,20 @@ def run_history(seed):
                 viol.append(('later-page-not-complete-although-answered', what, mon))
             return False
 
-        def maybe_next_page(mon):
+        def schedule_next_page(mon):
+            """after a successful page: decide when the next page fetch starts (never advance the clock here: other futures have deadlines)"""
             outs = mon.outcomes()
             if not outs or outs[-1][0] != 'cb' or mon.epoch >= 3:
                 return False
             if rng.random() < 0.7:
                 for h in held(('hold', 'late', 'hold-error'), mon.uid):
                     h.release()
-            d = rng.choice([0.0, 0.05, T / 2, T + 0.2])
-            world.advance_to(world.now + d)
+            mon.delay_before = rng.choice([0.0, 0.05, T / 2, T + 0.2])
+            mon.state = 'waiting'
+            mon.key_time = world.now + mon.delay_before
+            return True
+
+        def begin_next_page(mon):
             world.settle(advance=False)
             with world.inspect():
                 more = mon.future.has_more_pages
@@ -186,21 +191,31 @@ def run_history(seed):
             plan.epoch_of[mon.uid] = mon.epoch
             mon.future.start_fetching_next_page()
             mon.deadline = mon.epoch_start[-1] + T + R.EPS
-            mon.delay_before = d
+            mon.state = 'running'
+            mon.key_time = mon.deadline
             count('later_page_fetches')
-            if d > T:
+            if mon.delay_before > T:
                 count('later_page_fetches_started_after_more_than_the_timeout')
             return True
 
         for s in specs:
             start(s)
+            mons[s['uid']].state = 'running'
+            mons[s['uid']].key_time = mons[s['uid']].deadline
             if rng.random() < 0.5:
                 world.advance_to(world.now + rng.choice([0.01, 0.1]))
-        for rounds in range(12):
+        for rounds in range(24):
             active = [m for m in mons.values() if m.future is not None and not m.done]
             if not active:
                 break
-            mon = min(active, key=lambda m: m.deadline)
+            # the next thing on the agenda in virtual time: a deadline to judge or a page fetch to start; the clock never passes it unobserved
+            mon = min(active, key=lambda m: m.key_time)
+            if mon.state == 'waiting':
+                if world.now < mon.key_time:
+                    world.advance_to(mon.key_time)
+                if not begin_next_page(mon):
+                    mon.done = True
+                continue
             if mon.info['mode'] == 'block':
                 hang = False
                 count('blocking_result_calls')
@@ -233,7 +248,7 @@ def run_history(seed):
                     world.advance_to(mon.deadline)
                 world.settle(advance=False)
                 good = judge(mon)
-            if not good or not maybe_next_page(mon):
+            if not good or not schedule_next_page(mon):
                 mon.done = True
         for h in held(('hold', 'late', 'hold-error')):
             h.release()
@@ -277,7 +292,7 @@ def run(ctx):
     budget = 34 if ctx.quick else 400
     base = ctx.seed * 1000003 + (ctx.worker or 0) * 100003
     # budget by time, but never fewer histories than the floors need (a loaded machine must not turn the verdict inconclusive)
-    at_least = 70 if ctx.quick else 300
+    at_least = 80 if ctx.quick else 400
     for i in range(n):
         if ctx.time_left(budget) < 0 and i >= at_least:
             ctx.note("stopped by time budget after %d histories" % i)
@@ -308,6 +323,6 @@ def run(ctx):
             ctx.violation(mech, "%s [seed %d]" % (what, seed), {"seed": seed, "info": info, "future": hist.get(mon.uid)})
         if not viol and len(ctx.samples) < 4 and info['unanswered'] and info['messages'] >= 2:
             ctx.sample({"info": info, "futures": hist})
-    ctx.floor_distinct = 100 if ctx.quick else 3000
+    ctx.floor_distinct = 100 if ctx.quick else 1200
     ctx.floor_counters = {"histories": 150, "first_page_deadline_checks": 150, "later_page_deadline_checks": 60, "completed_by_client_timeout": 50,
                           "deadline_checks_with_unanswered_messages": 80, "blocking_result_calls": 20, "later_page_fetches": 60}
